@@ -242,7 +242,7 @@ pub fn check(s: &'static dyn Proto, c: &Case, st: &mut Stats, _k: &KnownFindings
 }
 
 pub const BUDGET: Budget = Budget {
-    quick: (3, 2, 1),
+    quick: (8, 5, 3),
     thorough: (12, 6, 3),
     shrink: 6,
 };
